@@ -103,6 +103,18 @@ APartialVerify(i, j, sch, ms, mv) ==
                 msign |-> ms, mver |-> mv, expect |-> ResOf(r), ideal |-> (i = j /\ ms = mv)]
   /\ phase' = "judged" /\ UNCHANGED deal
 
+\* two deals (of key k, then of key k2, made by the same dealer process one after the other) share no randomness:
+\* a participant of both who knows k2 and both of its shares learns nothing about k - the classic relation
+\* f_k(i) - f_k2(i) + k2 = k holds iff the two polynomials have the same non-constant coefficients; and dealing
+\* the same key twice gives different shares
+ACrossDeal(k, k2, t, n, i) ==
+  /\ phase = "idle"
+  /\ LET a == ShareVal(Secret(k), "a", t, i)
+         b == ShareVal(Secret(k2), "b", t, i) IN
+       last' = [act |-> "CrossDeal", k |-> k, k2 |-> k2, t |-> t, n |-> n, i |-> i,
+                expect |-> [res |-> "Ok", leak |-> (PAdd(PSub(a, b), Secret(k2)) = Secret(k)), sameshare |-> (a = b)]]
+  /\ phase' = "judged" /\ UNCHANGED deal
+
 \* ---- beyond the exhaustive grid: (t,n) up to 255, expectation from the ideal layer alone ----
 ASplitBig(k, t, n) ==
   /\ phase = "idle"
@@ -127,6 +139,7 @@ Next ==
   \/ (phase = "dealt" /\ \E sch \in {"Basic", "Pop"}, mr \in MsgRs : \E es \in EntrySeqs(deal.n, sch, "sig") : ACombine("sig", sch, es, mr))
   \/ (phase = "dealt" /\ \E i \in 1..deal.n, sch \in Schemes, mr \in MsgRs, zero \in BOOLEAN : APartialSign(i, sch, mr, zero))
   \/ (phase = "dealt" /\ \E i, j \in 1..deal.n, sch \in {"Basic", "Pop"}, ms, mv \in MsgRs : APartialVerify(i, j, sch, ms, mv))
+  \/ (phase = "idle" /\ \E k \in Keys, k2 \in Keys, tn \in TN : \E i \in 1..tn[2] : ACrossDeal(k, k2, tn[1], tn[2], i))
   \/ (phase = "idle" /\ \E k \in Keys, tn \in BigTN : ASplitBig(k, tn[1], tn[2]))
   \/ (phase = "dealtbig" /\ \E kind \in {"sk", "pk"}, sh \in Shapes : ACombineBig(kind, "", sh, <<>>))
   \/ (phase = "dealtbig" /\ \E sch \in {"Basic", "Pop"}, sh \in Shapes, mr \in MsgRs : ACombineBig("sig", sch, sh, mr))
@@ -151,6 +164,8 @@ ErrorClasses ==
        \/ \E i \in 1..Len(last.entries) : last.entries[i].id = 0 \/ ~last.entries[i].ok
        \/ \E i, j \in 1..Len(last.entries) : i # j /\ last.entries[i].id = last.entries[j].id
        \/ \E i \in 1..Len(last.entries) : last.entries[i].scheme # last.entries[1].scheme)
+\* deals are independent: no cross-deal relation reveals a key, no share repeats
+DealsIndependent == Judged("CrossDeal") => (~last.expect.leak /\ ~last.expect.sameshare)
 ParamRange == Judged("Split") => ((last.expect.res = "Ok") <=> (2 <= last.t /\ last.t <= last.n /\ last.n <= 255))
 PartialExact == Judged("PartialVerify") => ((last.expect.res = "Ok") <=> last.ideal)
 AugRefused == Judged("PartialSign") => ((last.expect.res = "Err") <=> (last.scheme = "Aug" \/ last.zero))
